@@ -64,7 +64,8 @@ def _l(v):
     return v
 
 
-def server_parity(ctx, ncases, nops):
+def server_parity(ctx, ncases, nops, PROFILE=None):
+    PROFILE = PROFILE or globals()['PROFILE']
     rng = ctx.rng
     programs = 0
     samples = []
@@ -74,7 +75,10 @@ def server_parity(ctx, ncases, nops):
         cfg = SG.make_cfg(rng, PROFILE)
         sc = SG.Scenario(rng, PROFILE)
         c11mod.gen_hook(sc, cfg)
-        runner = S.Runner('threading', cfg)
+        # one case in four has 'active' handlers (they emit to the client they were called for): parity only,
+        # the model has passive handlers
+        active = ci % 4 == 3
+        runner = S.Runner('threading', cfg, active=active)
         ops, thr = [], []
         try:
             n = rng.randint(nops // 3, nops)
@@ -100,8 +104,8 @@ def server_parity(ctx, ncases, nops):
                 thr.append(runner.do(ops[-1]))
         finally:
             runner.close()
-        coro = rng.random() < 0.6
-        asy, _ = S.execute_impl('asyncio', cfg, ops, coro)
+        coro = True if active else rng.random() < 0.6
+        asy, _ = S.execute_impl('asyncio', cfg, ops, coro, active=active)
         model, _snap = S.model_run(cfg, ops)
         programs += 1
         bad = None
@@ -110,7 +114,7 @@ def server_parity(ctx, ncases, nops):
             if d:
                 bad = (i, d, 'parity')
                 break
-            d1, d2 = S.compare(op, a, m), S.compare(op, b, m)
+            d1, d2 = ([], []) if active else (S.compare(op, a, m), S.compare(op, b, m))
             if d1 or d2:
                 bad = (i, d1 or d2, 'model')
                 break
@@ -119,14 +123,14 @@ def server_parity(ctx, ncases, nops):
             i, d, kind = bad
 
             def still(cand):
-                t1, _ = S.execute_impl('threading', cfg, cand)
-                t2, _ = S.execute_impl('asyncio', cfg, cand, coro)
+                t1, _ = S.execute_impl('threading', cfg, cand, active=active)
+                t2, _ = S.execute_impl('asyncio', cfg, cand, coro, active=active)
                 return any(compare_impls(o, x, y) for o, x, y in zip(cand, t1, t2))
             small = S.shrink_ops(ops[:i + 1], still) if kind == 'parity' else ops[:i + 1]
             ctx.violation('oracle' if kind == 'parity' else 'correspondence',
                           ('Server and AsyncServer behave differently: ' if kind == 'parity' else
                            'a server family disagrees with the common model: ') + d[0][:500],
-                          {'mode': 'asyncio', 'coro': coro, 'cfg': cfg, 'ops': small, 'difference': d},
+                          {'mode': 'asyncio', 'coro': coro, 'cfg': cfg, 'ops': small, 'difference': d, 'active': active},
                           no_input=(kind != 'parity'))
         kinds = set(o['op'] for o in ops)
         if len(kinds) >= 8:
@@ -172,6 +176,9 @@ def run(ctx):
     a = C.proof_step(ctx, ['parity itself is decided by executing the same scenarios on both families (translation validation); '
                            'the theorems cover only the source-derived tables'])
     programs, disagreements, samples, nontriv = server_parity(ctx, ctx.scale(220, 3000), 50)
+    from . import c06 as c06mod
+    p2, d2, _s2, n2 = server_parity(ctx, ctx.scale(120, 1500), 70, dict(c06mod.PROFILE))
+    programs, disagreements, nontriv = programs + p2, disagreements + d2, nontriv + n2
     sub = {}
     try:
         cp, cd = client_parity(ctx, ctx.scale(150, 3000), 24)
@@ -207,8 +214,8 @@ def run(ctx):
 
 def replay(ctx, r):
     case = C.unjsonable(r.get('replay', r))
-    t1, _ = S.execute_impl('threading', case['cfg'], case['ops'])
-    t2, _ = S.execute_impl('asyncio', case['cfg'], case['ops'], case.get('coro', False))
+    t1, _ = S.execute_impl('threading', case['cfg'], case['ops'], active=case.get('active', False))
+    t2, _ = S.execute_impl('asyncio', case['cfg'], case['ops'], case.get('coro', False), active=case.get('active', False))
     for i, (o, a, b) in enumerate(zip(case['ops'], t1, t2)):
         print('--- op %d: %s' % (i, S._brief(o)))
         print('   threaded: %r' % ({k: v for k, v in a.items() if v},))
